@@ -323,13 +323,11 @@ Proof.
   - destruct (py_int_max_str_digits <? zlen (c :: r)) eqn:E; [reflexivity|apply Z.ltb_ge in E; lia].
 Qed.
 
-Theorem int_literal_outcomes tv :
-  matches int_literal_re tv ->
-  (zlen tv <= py_int_max_str_digits -> exists z, lex_int_literal tv = Ok z) /\
-  (py_int_max_str_digits < zlen tv -> lex_int_literal tv = Crash ValueError).
+Theorem int_literal_total tv :
+  matches int_literal_re tv -> zlen tv <= py_int_max_str_digits -> exists z, lex_int_literal tv = Ok z.
 Proof.
-  intro H. unfold lex_int_literal. apply py_int_dec.
-  apply (plus_class_inv dec_class tv); [reflexivity|exact H].
+  intros H Hl. destruct (py_int_dec tv (plus_class_inv dec_class tv eq_refl H)) as [H1 _].
+  destruct (H1 Hl) as (z & Hz). exists z. unfold lex_int_literal. rewrite Hz. reflexivity.
 Qed.
 
 Lemma skip_prefix_class (pre : list nat) (a : re) tv :
@@ -346,30 +344,42 @@ Proof.
     destruct (IH s2 Hk1 H2) as (rest & -> & Hr). exists rest. auto.
 Qed.
 
-Theorem uint_type_outcomes tv :
+Lemma uint_type_inv tv :
   matches uint_type_re tv ->
-  (zlen tv <= py_int_max_str_digits + 4 -> exists z, lex_uint_cap tv = Ok z) /\
-  (py_int_max_str_digits + 4 < zlen tv -> lex_uint_cap tv = Crash ValueError).
+  exists ds, tv = map ascii_of_nat [117; 105; 110; 116]%nat ++ ds /\ matches (RPlus dec_class) ds.
 Proof.
   intro H. change uint_type_re with
     (fold_right (fun k r => RSeq (RChar k) r) (RPlus dec_class) [117; 105; 110; 116]%nat) in H.
-  apply skip_prefix_class in H; [|repeat constructor; lia]. destruct H as (ds & -> & Hd).
-  unfold lex_uint_cap. cbn [map app py_slice_from skipn].
-  pose proof (py_int_dec ds (plus_class_inv dec_class ds eq_refl Hd)) as [H1 H2].
-  rewrite !zlen_cons. split; intro Hl; [apply H1|apply H2]; lia.
+  apply skip_prefix_class in H; [exact H|repeat constructor; lia].
 Qed.
 
-Theorem int_type_outcomes tv :
+Lemma int_type_inv tv :
   matches int_type_re tv ->
-  (zlen tv <= py_int_max_str_digits + 3 -> exists z, lex_int_cap tv = Ok z) /\
-  (py_int_max_str_digits + 3 < zlen tv -> lex_int_cap tv = Crash ValueError).
+  exists ds, tv = map ascii_of_nat [105; 110; 116]%nat ++ ds /\ matches (RPlus dec_class) ds.
 Proof.
   intro H. change int_type_re with
     (fold_right (fun k r => RSeq (RChar k) r) (RPlus dec_class) [105; 110; 116]%nat) in H.
-  apply skip_prefix_class in H; [|repeat constructor; lia]. destruct H as (ds & -> & Hd).
-  unfold lex_int_cap. cbn [map app py_slice_from skipn].
-  pose proof (py_int_dec ds (plus_class_inv dec_class ds eq_refl Hd)) as [H1 H2].
-  rewrite !zlen_cons. split; intro Hl; [apply H1|apply H2]; lia.
+  apply skip_prefix_class in H; [exact H|repeat constructor; lia].
+Qed.
+
+Theorem uint_type_total tv :
+  matches uint_type_re tv -> zlen tv <= py_int_max_str_digits + 4 -> exists z, lex_uint_cap tv = Ok z.
+Proof.
+  intros H Hl. destruct (uint_type_inv tv H) as (ds & -> & Hd).
+  destruct (py_int_dec ds (plus_class_inv dec_class ds eq_refl Hd)) as [H1 _].
+  cbn [map app] in Hl. rewrite !zlen_cons in Hl.
+  destruct H1 as (z & Hz); [lia|]. exists z.
+  unfold lex_uint_cap. cbn [map app py_slice_from skipn]. rewrite Hz. reflexivity.
+Qed.
+
+Theorem int_type_total tv :
+  matches int_type_re tv -> zlen tv <= py_int_max_str_digits + 3 -> exists z, lex_int_cap tv = Ok z.
+Proof.
+  intros H Hl. destruct (int_type_inv tv H) as (ds & -> & Hd).
+  destruct (py_int_dec ds (plus_class_inv dec_class ds eq_refl Hd)) as [H1 _].
+  cbn [map app] in Hl. rewrite !zlen_cons in Hl.
+  destruct H1 as (z & Hz); [lia|]. exists z.
+  unfold lex_int_cap. cbn [map app py_slice_from skipn]. rewrite Hz. reflexivity.
 Qed.
 
 (* int(s, 16): a power-of-two base has no digit limit — total on the token language *)
@@ -380,11 +390,12 @@ Proof.
     (fold_right (fun k r => RSeq (RChar k) r) (RPlus hex_class) [48; 120]%nat) in H.
   apply skip_prefix_class in H; [|repeat constructor; lia]. destruct H as (ds & -> & Hd).
   apply (plus_class_inv hex_class ds eq_refl) in Hd. destruct Hd as (c & r & -> & HF).
-  unfold lex_hex_literal, py_int. cbn [map app].
-  change (strip_0x 16 (ascii_of_nat 48 :: ascii_of_nat 120 :: c :: r)) with (c :: r).
-  change (negb (is_pow2_base 16)) with false. cbn [andb].
-  destruct (digits_value_total 16 hex_class hex_digit (c :: r) 0 HF) as (z & Hz).
-  rewrite Hz. eauto.
+  destruct (digits_value_total 16 hex_class hex_digit (c :: r) 0 HF) as (z & Hz). exists z.
+  assert (Hp : py_int 16 py_int_max_str_digits (map ascii_of_nat [48; 120]%nat ++ c :: r) = Ok z).
+  { unfold py_int. cbn [map app].
+    change (strip_0x 16 (ascii_of_nat 48 :: ascii_of_nat 120 :: c :: r)) with (c :: r).
+    change (negb (is_pow2_base 16)) with false. cbn [andb]. rewrite Hz. reflexivity. }
+  unfold lex_hex_literal. rewrite Hp. reflexivity.
 Qed.
 
 (* str(z) *)
@@ -448,7 +459,7 @@ Proof.
     destruct (ceval env b); cbn [bind] in H; [discriminate|discriminate|auto].
   - destruct (ceval env a); cbn [bind] in H; [|discriminate|auto].
     destruct (ceval env b) as [y| |]; cbn [bind] in H; [|discriminate|auto].
-    unfold calc_divide, py_floordiv in H. destruct (y =? 0); inversion H. reflexivity.
+    unfold calc_divide, py_floordiv in H. destruct (y =? 0); inversion H; reflexivity.
   - auto.
 Qed.
 
@@ -467,9 +478,6 @@ Lemma message_items_total_guarded :
           message_items = true.
 Proof. vm_compute. reflexivity. Qed.
 
-Lemma message_item_import_crashes : message_item_outcome IImport = Crash AttributeError.
-Proof. vm_compute. reflexivity. Qed.
-
 Lemma actions_index_total : bad_actions = [].
 Proof. vm_compute. reflexivity. Qed.
 
@@ -486,7 +494,7 @@ Lemma message_items_total :
   forall i, In i message_items -> i <> IImport -> is_parser_error (message_item_outcome i) = true.
 Proof.
   intros i Hi Hn. pose proof message_items_total_guarded as H. rewrite forallb_forall in H.
-  specialize (H i Hi). destruct i; try exact H. contradiction.
+  specialize (H i Hi). destruct i; try exact H; contradiction.
 Qed.
 
 Lemma actions_indices_in_range :
@@ -578,8 +586,8 @@ Proof. cbn [no_empty_enum]. induction fs as [|kf r IH]; [reflexivity|]. cbn [go_
 
 Theorem py_render_defaults_total t : no_empty_enum t = true -> py_render_defaults t = Ok tt.
 Proof.
-  induction t as [| | n | n | n ms | t IH | x c e IH | x fs IH] using ty_ind'; intro H;
-    try reflexivity.
+  induction t as [| | n | n | n ms | t IH | x c e IH | x fs IH] using ty_ind'; intro H.
+  1-4: reflexivity.
   - cbn [py_render_defaults no_empty_enum] in *. unfold py_enum_default.
     destruct py_enum_default_guarded; [reflexivity|]. destruct ms; [discriminate|reflexivity].
   - cbn [py_render_defaults no_empty_enum] in *. auto.
@@ -595,10 +603,10 @@ Theorem py_render_defaults_crash t :
   py_enum_default_guarded = false -> no_empty_enum t = false -> py_render_defaults t = Crash IndexError.
 Proof.
   intro Hg.
-  induction t as [| | n | n | n ms | t IH | x c e IH | x fs IH] using ty_ind'; intro H;
-    try discriminate.
+  induction t as [| | n | n | n ms | t IH | x c e IH | x fs IH] using ty_ind'; intro H.
+  1-4: discriminate H.
   - cbn [py_render_defaults no_empty_enum] in *. unfold py_enum_default. rewrite Hg.
-    destruct ms; [reflexivity|discriminate].
+    destruct ms; [reflexivity|discriminate H].
   - cbn [py_render_defaults no_empty_enum] in *. auto.
   - cbn [py_render_defaults no_empty_enum] in *. auto.
   - rewrite py_render_defaults_msg. rewrite no_empty_enum_msg in H.
@@ -613,7 +621,10 @@ Lemma render_ints_total zs : ints_small zs = true -> render_ints zs = Ok tt.
 Proof.
   induction zs as [|z r IH]; [reflexivity|]. cbn [ints_small forallb render_ints]. intro H.
   apply andb_true_iff in H. destruct H as [H1 H2]. apply Z.ltb_lt in H1.
-  rewrite (pow10_spec _ max_digits_nonneg) in H1. rewrite (str_int_small z H1). cbn [bind]. apply IH. exact H2.
+  rewrite (pow10_spec _ max_digits_nonneg) in H1. unfold render_int. rewrite (str_int_small z H1).
+  assert (Hr : (if format_int_value_guarded then py_catch_value_error (Ok tt) "RendererError"%string else Ok tt)
+               = @Ok unit tt) by (destruct format_int_value_guarded; reflexivity).
+  rewrite Hr. cbn [bind]. apply IH. exact H2.
 Qed.
 
 Theorem render_total l t consts :
@@ -634,32 +645,3 @@ Lemma import_path_total path :
   existsb (fun c => Ascii.eqb c (ascii_of_nat 0)) path = false -> import_path path = Ok tt.
 Proof. intro H. unfold import_path. rewrite H. reflexivity. Qed.
 
-(* ====================================================================================== *)
-(* witnesses at the digit limit, without evaluating 10^4300                                *)
-(* ====================================================================================== *)
-
-Definition huge : Z := 10 ^ py_int_max_str_digits.
-
-Lemma str_int_huge : str_int huge = Crash ValueError.
-Proof.
-  apply str_int_big. unfold huge. rewrite Z.abs_eq; [lia|].
-  apply Z.pow_nonneg. lia.
-Qed.
-
-Lemma p_error_huge :
-  exists path z, In path p_error_paths /\ p_error_path_outcome path (TInt z) = Crash ValueError.
-Proof.
-  exists ("GrammarError"%string, true, 757%nat), huge. split; [vm_compute; tauto|].
-  unfold p_error_path_outcome. rewrite str_int_huge. reflexivity.
-Qed.
-
-Lemma array_token_huge : exists cap, array_type_token cap = Crash ValueError.
-Proof.
-  exists huge. unfold array_type_token. change array_type_formats_cap with true. cbv iota.
-  exact str_int_huge.
-Qed.
-
-Lemma render_huge : exists c, forall l, render l (TMsg false []) [c] = Crash ValueError.
-Proof.
-  exists huge. intro l. unfold render. cbn [render_ints]. rewrite str_int_huge. reflexivity.
-Qed.
